@@ -276,6 +276,8 @@ dangling.zone.tld. 300 IN CNAME nothing.zone.tld.\n\
 *.wild.zone.tld. 300 IN TXT \"wild\"\n\
 wild.zone.tld. 300 IN TXT \"wild base\"\n\
 sub.wild.zone.tld. 300 IN TXT \"blocks the wildcard below it\"\n\
+sub.wild.zone.tld. 300 IN AAAA 2001:db8::5\n\
+*.wc.zone.tld. 300 IN CNAME www.zone.tld.\n\
 x.ent.zone.tld. 300 IN A 192.0.2.7\n\
 deep.a.b.zone.tld. 300 IN A 192.0.2.8\n\
 mx.zone.tld. 300 IN MX 10 www.zone.tld.\n\
@@ -690,7 +692,12 @@ impl World {
                 if qtype != Rtype::CNAME && z.rrsets.contains_key(&(wc.clone(), Rtype::CNAME)) {
                     z.push_set(&mut r.answer, &wc, Rtype::CNAME, Some(&qn));
                     self.add_denial(z, &mut r, &name, &ce, 2);
-                    return r;
+                    let target = match z.rrsets[&(wc.clone(), Rtype::CNAME)][0].data() {
+                        ZoneRecordData::Cname(c) => lname(c.cname()),
+                        _ => unreachable!(),
+                    };
+                    name = target;
+                    continue;
                 }
                 z.push_set(&mut r.authority, &z.apex, Rtype::SOA, None);
                 self.add_denial(z, &mut r, &name, &ce, 3);
@@ -783,6 +790,86 @@ impl World {
             cur = p;
         }
         None
+    }
+
+    /// Denials of data that exists, assembled from genuine records:
+    /// mode 0 - NODATA with the NSEC/NSEC3 *matching* the query name (whose
+    /// bitmap lists the type); mode 1 - NXDOMAIN with that matching record in
+    /// the place of a covering one plus the wildcard denial; mode 2 - for the
+    /// apex of a signed child zone, NODATA with the parent zone's SOA and the
+    /// parent-side NSEC/NSEC3 of the delegation (NS, DS, no SOA bit: it says
+    /// nothing about the child's apex, RFC 4035 section 5.4).
+    pub fn forged_denial_of_existing(&self, qname: &str, qtype: Rtype, mode: u8) -> Option<Resp> {
+        let truth = self.resolve(qname, qtype);
+        let name = qname.to_ascii_lowercase();
+        if truth.rcode_nx || truth.insecure || truth.answer.first().is_none_or(|r| lname(r.owner()) != name || r.rtype() != qtype) {
+            return None;
+        }
+        let mut r = Resp::default();
+        match mode {
+            0 | 1 => {
+                let z = self.find_zone(&name, qtype);
+                if !z.signed || !z.has_owner(&name) {
+                    return None;
+                }
+                z.push_set(&mut r.authority, &z.apex, Rtype::SOA, None);
+                if mode == 0 {
+                    self.add_denial(z, &mut r, &name, &name, 0);
+                } else {
+                    if name == z.apex {
+                        return None;
+                    }
+                    r.rcode_nx = true;
+                    let parent = parent_of(&name)?;
+                    self.add_denial(z, &mut r, &name, &parent, 1);
+                }
+            }
+            _ => {
+                if qtype == Rtype::DS || name == "." {
+                    return None;
+                }
+                let child = self.zone(&name)?;
+                if !child.signed {
+                    return None;
+                }
+                let p = self.find_zone(&name, Rtype::DS);
+                if !p.signed || p.apex == name {
+                    return None;
+                }
+                p.push_set(&mut r.authority, &p.apex, Rtype::SOA, None);
+                self.add_denial(p, &mut r, &name, &name, 0);
+            }
+        }
+        if r.authority.iter().all(|x| !matches!(x.rtype(), Rtype::NSEC | Rtype::NSEC3)) {
+            return None;
+        }
+        r.proof.clear();
+        Some(r)
+    }
+
+    /// NODATA for a type that exists at the query name, "proven" with the
+    /// NSEC of the wildcard next to it re-owned to the query name: the RRSIG
+    /// verifies (the labels field restores the wildcard owner), the type is
+    /// missing from the bitmap. RFC 4035 section 5.3.4 / RFC 4592: an NSEC
+    /// obtained by wildcard expansion proves nothing about the name it was
+    /// expanded to.
+    pub fn forged_wildcard_nsec_nodata(&self, qname: &str, qtype: Rtype) -> Option<Resp> {
+        let truth = self.resolve(qname, qtype);
+        let name = qname.to_ascii_lowercase();
+        if truth.rcode_nx || truth.insecure || truth.answer.first().is_none_or(|r| lname(r.owner()) != name || r.rtype() != qtype) {
+            return None;
+        }
+        let z = self.zones.iter().rev().find(|z| z.signed && ends_with(&name, &z.apex))?;
+        let wc = format!("*.{}", parent_of(&name)?);
+        if !z.has_owner(&wc) || z.rrsets.contains_key(&(wc.clone(), qtype)) || z.rrsets.contains_key(&(wc.clone(), Rtype::CNAME)) {
+            return None;
+        }
+        let mut r = Resp::default();
+        z.push_set(&mut r.authority, &z.apex, Rtype::SOA, None);
+        if !z.push_set(&mut r.authority, &wc, Rtype::NSEC, Some(&sname(qname))) {
+            return None;
+        }
+        Some(r)
     }
 
     /// A DNAME answer whose synthesised (unsigned) CNAME was redirected to
